@@ -820,3 +820,119 @@ def _create_once(inputs, ghost=None):
     shutil.rmtree(d, ignore_errors=True)
     out.update(returned=None, violations=viol, violates_contract=bool(viol))
     return out
+
+
+@custom("cooler._balance:balance_cooler")
+def _replay_balance(inputs, ghost=None):
+    """a real 7-bin, two-chromosome cooler balanced with the counter-model's mode, thresholds and chunk size:
+    (1) the result must not depend on the chunk size (compared with chunksize=None and with one pixel per chunk),
+    (2) every bin excluded by min_nnz / min_count (recomputed from the pixel table with the library's own
+        marginal convention) must carry NaN and no kept bin with remaining data may,
+    (3) converged must be var < tol and the statistics record must have the documented keys."""
+    import os
+    import shutil
+    import tempfile
+    import warnings
+    import numpy as np
+    import pandas as pd
+    import cooler
+    from cooler._balance import balance_cooler
+    g = ghost or {}
+    mode = g.get("r_mode", "genomewide")
+
+    def small(x, lo, hi, dflt):
+        return x if isinstance(x, int) and not isinstance(x, bool) and lo <= x <= hi else dflt
+    cs = inputs.get("chunksize")
+    cs = None if cs is None else small(cs, 1, 50, 3)
+    ig = inputs.get("ignore_diags")
+    ig = False if ig is False or ig is None else small(ig, 0, 4, 1)
+    min_nnz = small(inputs.get("min_nnz"), -5, 12, 2)
+    min_count = small(inputs.get("min_count"), -5, 60, 0)
+    opts = dict(cis_only=(mode == "cis"), trans_only=(mode == "trans"), ignore_diags=ig, mad_max=0, min_nnz=min_nnz,
+                min_count=min_count, tol=1e-9, max_iters=500, rescale_marginals=bool(inputs.get("rescale_marginals", True)))
+    out = {"inputs_used": dict(opts, chunksize=cs)}
+    sizes = [4, 3]
+    bins = pd.DataFrame({"chrom": ["a"] * 4 + ["b"] * 3, "start": [0, 10, 20, 30, 0, 10, 20], "end": [10, 20, 30, 40, 10, 20, 30]})
+    rng = np.random.RandomState(7)
+    rows = []
+    for i in range(7):
+        for j in range(i, 7):
+            if (i, j) in ((2, 2), (2, 3), (1, 2), (0, 2), (2, 4), (2, 5), (2, 6)) and not (j == 4):
+                continue          # bin 2 is nearly empty: one contact only
+            rows.append((i, j, int(rng.randint(1, 9))))
+    pix = pd.DataFrame(rows, columns=["bin1_id", "bin2_id", "count"])
+    d = tempfile.mkdtemp(prefix="pyvc_bal_")
+    p = os.path.join(d, "b.cool")
+    cooler.create_cooler(p, bins, pix)
+    clr = cooler.Cooler(p)
+    chrom = np.repeat([0, 1], sizes)
+
+    def judge(opts, cs):
+        viol = []
+        min_nnz, min_count, ig = opts["min_nnz"], opts["min_count"], opts["ignore_diags"]
+
+        def run(chunksize):
+            with warnings.catch_warnings():
+                warnings.simplefilter("ignore")
+                return balance_cooler(clr, chunksize=chunksize, **opts)
+        try:
+            w, st = run(cs)
+            w0, st0 = run(None)
+            w1, st1 = run(1)
+        except Exception as e:
+            return [f"balance_cooler raised {type(e).__name__}: {e}"], None
+        for other, nm in ((w0, "chunksize=None"), (w1, "chunksize=1")):
+            if not (np.array_equal(np.isnan(w), np.isnan(other)) and np.allclose(np.nan_to_num(w), np.nan_to_num(other), rtol=1e-7, atol=1e-12)):
+                viol.append(f"weights with chunksize={cs} differ from {nm}: {np.round(w, 6).tolist()} vs {np.round(other, 6).tolist()}")
+        nnzm, cnt = np.zeros(7), np.zeros(7)
+        for i, j, v in rows:
+            if opts["cis_only"] and chrom[i] != chrom[j]:
+                continue
+            if ig and abs(i - j) < ig:
+                continue
+            nnzm[i] += 1
+            nnzm[j] += 1
+            cnt[i] += v
+            cnt[j] += v
+        excl = np.zeros(7, bool)
+        if min_nnz > 0:
+            excl |= nnzm < min_nnz
+        if min_count:
+            excl |= cnt < min_count
+        for k in range(7):
+            if excl[k] and not np.isnan(w[k]):
+                viol.append(f"bin {k} is excluded by min_nnz/min_count (nnz marginal {nnzm[k]}, count marginal {cnt[k]}) but has weight {w[k]}")
+        for k in range(7):
+            if excl[k]:
+                continue
+            has = False
+            for i, j, v in rows:
+                if k not in (i, j) or excl[i] or excl[j]:
+                    continue
+                if ig and abs(i - j) < ig:
+                    continue
+                if opts["cis_only"] and chrom[i] != chrom[j]:
+                    continue
+                if opts["trans_only"] and chrom[i] == chrom[j]:
+                    continue
+                has = True
+            if has and np.isnan(w[k]):
+                viol.append(f"bin {k} passes the filters and has data left but carries NaN (min_nnz={min_nnz}, min_count={min_count})")
+        keys = {"tol", "min_nnz", "min_count", "mad_max", "cis_only", "ignore_diags", "scale", "converged", "var", "divisive_weights"}
+        if set(st) != keys:
+            viol.append(f"stats keys {sorted(st)}")
+        elif np.ndim(st["var"]) == 0 and bool(st["converged"]) != bool(st["var"] < st["tol"]):
+            viol.append(f"converged={st['converged']} but var={st['var']}, tol={st['tol']}")
+        return viol, w
+    # the counter-model's thresholds first, then the thresholds at and next to each marginal of this matrix
+    # (a threshold defect shows only where a marginal equals the threshold)
+    cands = [(min_nnz, min_count)] + [(t, 0) for t in range(1, 13)] + [(0, t) for t in (1, 2, 5, 10, 15, 20, 25, 30, 35, 40, 45, 50)]
+    viol, w = [], None
+    for n_try, (a_, b_) in enumerate(cands):
+        viol, w = judge(dict(opts, min_nnz=a_, min_count=b_), cs)
+        if viol:
+            out["inputs_used"].update(min_nnz=a_, min_count=b_, thresholds="the counter-model's" if n_try == 0 else "re-chosen next to a marginal of the replay matrix")
+            break
+    shutil.rmtree(d, ignore_errors=True)
+    out.update(returned=repr(np.round(w, 5).tolist()) if w is not None else None, raised=None, violations=viol, violates_contract=bool(viol))
+    return out
